@@ -5,6 +5,8 @@ package kvstore
 import (
 	"regexp"
 
+	"github.com/olric-data/olric/internal/kvstore/entry"
+
 	"github.com/olric-data/olric/pkg/storage"
 )
 
@@ -48,10 +50,84 @@ func vpFullScan(s *KVStore, nkeys int, count int, expr string, limit int) ([]int
 	return seen, foreign
 }
 
-// VerifC12_Scan: after any script (which shapes the tables: several tables, recycled tables, holes in the
-// coefficient numbering), a full scan with any COUNT in [1,3] terminates, yields every present key and no
-// absent key.
+// Table sizes for the scan harnesses: 32 holds one entry per table, 64 two small ones, 100 three.
+var vpSizes = [3]uint64{32, 64, 100}
+
+func vpPutFixed(s *KVStore, ref []vpRef, k int, raw bool) {
+	e := entry.New()
+	e.SetKey(vpKeyNames[k])
+	e.SetValue([]byte{byte(k)})
+	e.SetTTL(0)
+	e.SetTimestamp(int64(7 + k))
+	var err error
+	if raw {
+		err = s.PutRaw(vpHKey(k), e.Encode())
+	} else {
+		err = s.Put(vpHKey(k), e)
+	}
+	if err == nil {
+		ref[k] = vpRef{present: true, val: []byte{byte(k)}, ttl: 0, ts: int64(7 + k)}
+	}
+}
+
+// vpPrepare drives the store through one of a few concrete preambles (real code, fixed operations) that
+// leave characteristic table layouts behind: holes in the coefficient numbering, recycled tables that
+// are reused under a higher coefficient, recycled tables dropped after the idle timeout.
+func vpPrepare(s *KVStore, ref []vpRef, layout int) {
+	switch layout {
+	case 1: // a | b | b' : the middle table becomes pure garbage, is recycled (and dropped when idle)
+		vpPutFixed(s, ref, 0, false)
+		vpPutFixed(s, ref, 1, false)
+		vpPutFixed(s, ref, 1, false)
+		vpCompact(s, 8)
+	case 2: // a | b, delete a, compact, put a again: recycled table reused under a new coefficient
+		vpPutFixed(s, ref, 0, false)
+		vpPutFixed(s, ref, 1, false)
+		_ = s.Delete(vpHKey(0))
+		ref[0] = vpRef{}
+		vpCompact(s, 8)
+		vpPutFixed(s, ref, 0, true)
+	case 3: // overwrite churn of one key followed by the other key
+		vpPutFixed(s, ref, 0, false)
+		vpPutFixed(s, ref, 0, true)
+		vpPutFixed(s, ref, 0, false)
+		vpCompact(s, 8)
+		vpPutFixed(s, ref, 1, false)
+	}
+}
+
+// VerifC12_Scan: after a preamble and any script (which shape the tables: several tables, recycled tables,
+// holes in the coefficient numbering), a full scan with any COUNT in [1,3] terminates, yields every present
+// key and no absent key.
 func VerifC12_Scan() {
+	nkeys := vpBound("keys")
+	steps := vpBound("steps")
+	big := vpBound("biglen")
+	size := vpSizes[vpChoose("size", len(vpSizes))]
+	vpIdleNow = vpChoose("idle", 2) == 1
+	s := vpMkStore(size)
+	ref := make([]vpRef, nkeys)
+	vpPrepare(s, ref, vpChoose("layout", 4))
+	for i := 0; i < steps; i++ {
+		s = vpStep(s, ref, nkeys, big, size, 2*steps+8, 4)
+	}
+	count := vpRange("count", 1, 3)
+	seen, foreign := vpFullScan(s, nkeys, count, "", 4*steps+12)
+	for k := 0; k < nkeys; k++ {
+		if ref[k].present {
+			vpAssert(seen[k] >= 1, "scan-yields-present-key")
+			vpAssert(seen[k] == 1, "scan-yields-present-key-once")
+		} else {
+			vpAssert(seen[k] == 0, "scan-never-yields-absent-key")
+		}
+	}
+	vpAssert(foreign == 0, "scan-foreign-key")
+	vpReach("end")
+}
+
+// VerifC12_ScanSym: the same with a symbolic table size (the solver decides the cursor arithmetic
+// cursor/tableSize and cf*tableSize+offset for every size in range), shorter scripts.
+func VerifC12_ScanSym() {
 	nkeys := vpBound("keys")
 	steps := vpBound("steps")
 	big := vpBound("biglen")
@@ -62,12 +138,11 @@ func VerifC12_Scan() {
 	for i := 0; i < steps; i++ {
 		s = vpStep(s, ref, nkeys, big, size, 2*steps+4, 4)
 	}
-	count := vpRange("count", 1, 3)
+	count := vpRange("count", 1, 2)
 	seen, foreign := vpFullScan(s, nkeys, count, "", 4*steps+6)
 	for k := 0; k < nkeys; k++ {
 		if ref[k].present {
 			vpAssert(seen[k] >= 1, "scan-yields-present-key")
-			vpAssert(seen[k] == 1, "scan-yields-present-key-once")
 		} else {
 			vpAssert(seen[k] == 0, "scan-never-yields-absent-key")
 		}
@@ -84,16 +159,16 @@ func VerifC12_ScanMatch() {
 	nkeys := vpBound("keys")
 	steps := vpBound("steps")
 	big := vpBound("biglen")
-	size := vpU64("tableSize")
-	vpAssume(size >= 31 && size <= uint64(4*(30+big)))
+	size := vpSizes[vpChoose("size", len(vpSizes))]
 	s := vpMkStore(size)
 	ref := make([]vpRef, nkeys)
+	vpPrepare(s, ref, vpChoose("layout", 4))
 	for i := 0; i < steps; i++ {
-		s = vpStep(s, ref, nkeys, big, size, 2*steps+4, 4)
+		s = vpStep(s, ref, nkeys, big, size, 2*steps+8, 4)
 	}
 	expr := vpExprs[vpChoose("expr", len(vpExprs))]
 	count := vpRange("count", 1, 2)
-	seen, foreign := vpFullScan(s, nkeys, count, expr, 4*steps+6)
+	seen, foreign := vpFullScan(s, nkeys, count, expr, 4*steps+12)
 	re := regexp.MustCompile(expr)
 	for k := 0; k < nkeys; k++ {
 		if ref[k].present && re.MatchString(vpKeyNames[k]) {
